@@ -33,8 +33,11 @@ import traceback
 from . import env
 
 KNOWN_FILE = os.path.join(env.VERIF_DIR, 'known_findings.json')
-REPLAY_DIR = os.path.join(env.VERIF_DIR, 'replays')
-EVIDENCE_DIR = os.path.join(env.VERIF_DIR, 'evidence')
+# FBV_OUT_DIR redirects run-time outputs (evidence, replays); used only by the mutation self-tests so
+# that runs against scratch copies of the library never overwrite the real evidence files.
+OUT_DIR = os.environ.get('FBV_OUT_DIR') or env.VERIF_DIR
+REPLAY_DIR = os.path.join(OUT_DIR, 'replays')
+EVIDENCE_DIR = os.path.join(OUT_DIR, 'evidence')
 REGRESS_DIR = os.path.join(env.VERIF_DIR, 'regress')
 
 
@@ -131,7 +134,7 @@ def save_replay(prop_id, fail, seed, tier):
                    'detail': fail['detail'], 'seed': seed, 'tier': tier, 'case': fail['case']},
                   f, indent=1, sort_keys=True, default=str)
         f.write('\n')
-    return os.path.relpath(path, env.VERIF_DIR)
+    return os.path.relpath(path, env.VERIF_DIR) if OUT_DIR == env.VERIF_DIR else path
 
 
 # ------------------------------------------------------------------------------------------------
